@@ -20,6 +20,7 @@ import (
 	"os/exec"
 	"runtime/debug"
 	"sort"
+	"strconv"
 	"strings"
 	"time"
 )
@@ -154,10 +155,18 @@ func (c *childExec) exec(line string) string {
 			return "HARNESS-CRASH " + msg
 		}
 		return r.s
-	case <-time.After(180 * time.Second):
+	case <-time.After(caseTimeout()):
 		c.stop()
-		return "HARNESS-TIMEOUT"
+		return "HARNESS-TIMEOUT (the case did not finish: hang or endless loop)"
 	}
+}
+
+// caseTimeout is the time one case of an isolated suite may take (VERIF_CASE_TIMEOUT seconds, default 90).
+func caseTimeout() time.Duration {
+	if v, err := strconv.Atoi(os.Getenv("VERIF_CASE_TIMEOUT")); err == nil && v > 0 {
+		return time.Duration(v) * time.Second
+	}
+	return 90 * time.Second
 }
 
 func main() {
